@@ -120,6 +120,11 @@ def ninja_quote(text: str, is_build_line: bool = False) -> str:
 
 Please report this error with a test case to the Meson bug tracker.'''
         raise MesonException(errmsg)
+    if is_build_line and '|' in text:
+        # Ninja has no escape for '|' in a path: it always ends the path and
+        # starts the list of implicit outputs or dependencies.
+        raise MesonException(f'Ninja does not support "|" in file names: {text!r}. '
+                             'Please rename the file.')
 
     quote_re = NINJA_QUOTE_BUILD_PAT if is_build_line else NINJA_QUOTE_VAR_PAT
     if ' ' in text or '$' in text or (is_build_line and ':' in text):
